@@ -271,6 +271,38 @@ def r3_read_requires_dependency(run, w):
          ok and shape, fi=un.fi)
 
 
+def _all_rows_atom(flow, p):
+  """atom(expr, nid): `<p> == depend.ALL_ROWS` (either operand order, == or is)."""
+  def atom(e, i):
+    if not (isinstance(e, ast.Compare) and len(e.ops) == 1 and
+            isinstance(e.ops[0], (ast.Eq, ast.Is))):
+      return False
+    for (x, y) in ((e.left, e.comparators[0]), (e.comparators[0], e.left)):
+      if flow.itext(x, i, stop=(p,)) == p and endswith(dotted(y), "ALL_ROWS"):
+        return True
+    return False
+  return atom
+
+
+def _expr_facts(root, target):
+  """(test, polarity) facts established by the conditional expressions of `root` on the way down
+  to sub-expression `target`."""
+  out = []
+  def go(e):
+    if e is target:
+      return True
+    for ch in ast.iter_child_nodes(e):
+      if go(ch):
+        if isinstance(e, ast.IfExp) and ch is e.body:
+          out.extend(facts(e.test, True))
+        elif isinstance(e, ast.IfExp) and ch is e.orelse:
+          out.extend(facts(e.test, False))
+        return True
+    return False
+  go(root)
+  return out
+
+
 def r4_relations(run, w):
   R4 = run.rule("C05-R4", "relations: ALL_ROWS is guarded before iterating; composition applies "
                 "target then source; SingleRowsIdentityRelation drops ALL_ROWS", floor=5)
@@ -280,54 +312,79 @@ def r4_relations(run, w):
     if m is None:
       continue
     fn = w.fn_of(m)
+    flow = Flow(fn)
     p = m.params()[1]
-    iterates = [s for s in ast.walk(m.node) if (isinstance(s, (ast.For, ast.comprehension)) and
-                                                p in {x.id for x in ast.walk(s.iter)
-                                                      if isinstance(x, ast.Name)})]
-    if not iterates:
+    cfg = fn.cfg
+    atom = _all_rows_atom(flow, p)
+    def mentions_p(e, nid):
+      return any(isinstance(x, ast.Name) and flow.itext(x, nid, stop=(p,)) == p
+                 for x in ast.walk(e))
+    sites = []     # (cfg node id, root expression evaluated there, the iterable)
+    for n in cfg.nodes:
+      if n.kind == "for" and mentions_p(n.stmt.iter, n.id):
+        sites.append((n.id, n.stmt.iter, n.stmt.iter))
+      for e in n.exprs:
+        for x in walk_no_nested(e):
+          if isinstance(x, ast.comprehension) and mentions_p(x.iter, n.id):
+            sites.append((n.id, e, x.iter))
+    if not sites:
       run.ob(R4, m.qualname, "does not iterate its argument", "no ALL_ROWS guard needed", True,
              fi=m, nontrivial=False)
       continue
-    cfg = fn.cfg
-    guards = {n.id for n in cfg.nodes if n.kind == "if" and isinstance(n.stmt.test, ast.Compare)
-              and text(n.stmt.test.left) == p and
-              endswith(dotted(n.stmt.test.comparators[0]), "ALL_ROWS")}
-    it_nodes = {n.id for n in cfg.nodes if any(any(x is s or x is getattr(s, "iter", None)
-                                                   for x in ast.walk(e)) for e in n.exprs
-                                               for s in iterates)}
-    ok = bool(guards) and all(cfg.dominated_by(i, guards) for i in it_nodes)
+    ok = True
+    for (nid, root, it) in sites:
+      inline_guard = any(pol is False and atom(t, nid) for (t, pol) in _expr_facts(root, it))
+      ok = ok and (inline_guard or flow.guarded(nid, atom, False))
     # and the guard branch returns ALL_ROWS (or nothing for SingleRows)
     run.ob(R4, m.qualname, "if %s == depend.ALL_ROWS: return ..." % p,
            "the ALL_ROWS sentinel is never iterated", ok, fi=m)
   cr = w.fn("relation.ComposedRelation.get_affected_rows")
-  rets = [s for s in ast.walk(cr.node) if isinstance(s, ast.Return)]
-  ok = len(rets) == 1 and text(rets[0].value).replace("\n", "").replace(" ", "") == \
-      "self.source_relation.get_affected_rows(self.target_relation.get_affected_rows(%s))" % \
-      cr.fi.params()[1]
+  cflow = Flow(cr)
+  p = cr.fi.params()[1]
+  cases = return_cases(cflow)
+  ok = len(cases) == 1 and cases[0][1].expr is not None and \
+      cflow.itext(cases[0][1].expr, cases[0][1].nid, stop=(p,)) == \
+      "self.source_relation.get_affected_rows(self.target_relation.get_affected_rows(%s))" % p
   run.ob(R4, cr.qualname, "source(target(rows))", "composed relation maps target-side rows first, "
          "then source-side", ok, fi=cr.fi)
   init = w.fn("relation.ComposedRelation.__init__")
+  iflow = Flow(init)
   ps = init.fi.params()
-  ok = any(isinstance(s, ast.Assign) and text(s.targets[0]) == "self.source_relation" and
-           text(s.value) == ps[1] for s in ast.walk(init.node)) and \
-      any(isinstance(s, ast.Assign) and text(s.targets[0]) == "self.target_relation" and
-          text(s.value) == ps[2] for s in ast.walk(init.node))
+  def stores(attr, param):
+    for n in init.cfg.nodes:
+      if n.kind == "stmt" and isinstance(n.stmt, ast.Assign):
+        for t in n.stmt.targets:
+          if text(t) == "self." + attr and iflow.itext(n.stmt.value, n.id, stop=ps) == param:
+            return True
+    return False
+  ok = stores("source_relation", ps[1]) and stores("target_relation", ps[2])
   run.ob(R4, init.qualname, "source_relation = referring side; target_relation = target side",
          "sides are not swapped", ok, fi=init.fi)
   sr = w.fn("relation.SingleRowsIdentityRelation.get_affected_rows")
-  rets = [s for s in ast.walk(sr.node) if isinstance(s, ast.Return)]
+  sflow = Flow(sr)
   p = sr.fi.params()[1]
-  ok = len(rets) == 1 and isinstance(rets[0].value, ast.IfExp) and \
-      text(rets[0].value.body) in ("[]", "()", "set()") and \
-      text(rets[0].value.test) in ("%s == depend.ALL_ROWS" % p,) and \
-      text(rets[0].value.orelse) == p
+  atom = _all_rows_atom(sflow, p)
+  seen = set()
+  ok = True
+  for (rn, l) in return_cases(sflow):
+    t = sflow.itext(l.expr, l.nid, stop=(p,)) if l.expr is not None else None
+    pol = leaf_polarity(sflow, l, atom)
+    if t in ("[]", "()", "set()", "list()", "tuple()") and pol is True:
+      seen.add("none")
+    elif t == p and pol is False:
+      seen.add("rows")
+    else:
+      ok = False
   run.ob(R4, sr.qualname, "[] if rows == ALL_ROWS else rows",
-         "trigger dependencies ignore whole-column invalidation and pass specific rows", ok,
-         fi=sr.fi)
+         "trigger dependencies ignore whole-column invalidation and pass specific rows",
+         ok and seen == {"none", "rows"}, fi=sr.fi)
   ir = w.fn("relation.IdentityRelation.get_affected_rows")
-  rets = [s for s in ast.walk(ir.node) if isinstance(s, ast.Return)]
+  rflow = Flow(ir)
+  cases = return_cases(rflow)
+  p = ir.fi.params()[1]
   run.ob(R4, ir.qualname, "return input_rows", "identity relation maps rows to themselves",
-         len(rets) == 1 and text(rets[0].value) == ir.fi.params()[1], fi=ir.fi)
+         len(cases) == 1 and cases[0][1].expr is not None and
+         rflow.itext(cases[0][1].expr, cases[0][1].nid, stop=(p,)) == p, fi=ir.fi)
 
 
 def r5_reference_index(run, w):
@@ -342,21 +399,23 @@ def r5_reference_index(run, w):
   upd = [(n, c) for (n, c, nm) in fn.calls() if nm == "self._update_references"]
   if not base_set or not upd:
     raise AnalysisError("BaseReferenceColumn.set: base write or _update_references not found")
+  flow = Flow(fn)
+  def stored_read(x, k):
+    """self.safe_get(<row param>)"""
+    return isinstance(x, ast.Call) and text(x.func) == "self.safe_get" and nargs(x) == 1 and \
+        flow.itext(x.args[0] if x.args else x.keywords[0].value, k, stop=(row,)) == row
   for (n, c) in upd:
-    ok = len(c.args) == 3 and text(c.args[0]) == row and all(isinstance(a, ast.Name)
-                                                             for a in c.args[1:])
+    a0, a1, a2 = argn(w, fn, c, 0), argn(w, fn, c, 1), argn(w, fn, c, 2)
+    ok = nargs(c) == 3 and None not in (a0, a1, a2) and flow.itext(a0, n.id, stop=(row,)) == row
     if ok:
-      oldv, newv = c.args[1].id, c.args[2].id
-      def reads(var):
-        return {m.id for m in cfg.nodes if m.kind == "stmt" and isinstance(m.stmt, ast.Assign)
-                and text(m.stmt.targets[0]) == var and
-                text(m.stmt.value) == "self.safe_get(%s)" % row}
-      ro, rn = reads(oldv), reads(newv)
-      ok = bool(ro) and bool(rn) and oldv != newv and \
-          not (cfg.reach_after(base_set) & ro) and \
-          all(cfg.dominated_by(x, base_set) for x in rn) and \
-          cfg.dominated_by(n.id, rn) and cfg.dominated_by(n.id, ro) and \
-          len(E.local_defs(fn.node, oldv)) == 1 and len(E.local_defs(fn.node, newv)) == 1
+      lo, ln = flow.leaves(a1, n.id), flow.leaves(a2, n.id)
+      after_write = cfg.reach_after(base_set)
+      ok = bool(lo) and bool(ln) and \
+          all(stored_read(l.expr, l.nid) and l.nid not in after_write and
+              l.nid not in base_set for l in lo) and \
+          all(stored_read(l.expr, l.nid) and cfg.dominated_by(l.nid, base_set) and
+              l.nid not in base_set for l in ln) and \
+          all(cfg.dominated_by(n.id, {l.nid}) for l in lo + ln)
     run.ob(R5, fn.qualname, short(c), "old = safe_get before the write, new = safe_get after it "
            "(the value as stored, after clean-up), both passed to _update_references", ok,
            fi=fn.fi, node=c)
@@ -367,12 +426,19 @@ def r5_reference_index(run, w):
   ps = ur.fi.params()
   rem = [c for (n, c, nm) in ur.calls() if endswith(nm, "_relation.remove_reference")]
   add = [c for (n, c, nm) in ur.calls() if endswith(nm, "_relation.add_reference")]
+  uflow = Flow(ur)
   def loop_over(call, var):
-    for s in ast.walk(ur.node):
-      if isinstance(s, ast.For) and any(x is call for x in ast.walk(s)):
-        return text(s.iter) == "self._value_iterable(%s)" % var and \
-            [text(a) for a in call.args] == [ps[1], text(s.target)]
-    return False
+    """call(<row param>, r) for r in self._value_iterable(<var>)"""
+    ok_ = False
+    for nid in uflow.where(call):
+      a0, a1 = argn(w, ur, call, 0), argn(w, ur, call, 1)
+      if a0 is None or a1 is None or nargs(call) != 2:
+        return False
+      src = uflow.loop_source(a1, nid)
+      ok_ = uflow.itext(a0, nid, stop=ps) == ps[1] and src is not None and \
+          uflow.itext(src[0], src[1], stop=ps) == "self._value_iterable(%s)" % var and \
+          not uflow.required_facts(nid)
+    return ok_
   ok = len(rem) == 1 and len(add) == 1 and loop_over(rem[0], ps[2]) and loop_over(add[0], ps[3])
   run.ob(R5, ur.qualname, "remove old targets, add new targets",
          "references of the old value are removed and those of the new value added, for this row",
@@ -389,17 +455,28 @@ def r5_reference_index(run, w):
          "a copied column's inverse map is rebuilt from the copied data", ok, fi=cp.fi)
   rr = w.repo.cls("relation.ReferenceRelation")
   ar = w.fn("relation.ReferenceRelation.add_reference")
-  ok = any(isinstance(c.func, ast.Attribute) and c.func.attr == "add" and
-           text(c.args[0]) == ar.fi.params()[1] and "setdefault(%s" % ar.fi.params()[2]
-           in text(c.func.value) for c in calls_in(ar.node))
+  aflow = Flow(ar)
+  aps = ar.fi.params()
+  ok = False
+  for (n, c, nm) in ar.calls():
+    if isinstance(c.func, ast.Attribute) and c.func.attr == "add" and nargs(c) == 1:
+      recv = aflow.inline(c.func.value, n.id, stop=aps)
+      ok = ok or (aflow.itext(c.args[0], n.id, stop=aps) == aps[1] and
+                  isinstance(recv, ast.Call) and text(recv.func) == "self.inverse_map.setdefault"
+                  and bool(recv.args) and text(recv.args[0]) == aps[2])
   run.ob(R5, ar.qualname, "inverse_map.setdefault(target, set()).add(referring)",
          "inverse map is keyed by target row and holds referring rows", ok, fi=ar.fi)
   rm = w.fn("relation.ReferenceRelation.remove_reference")
-  ok = any(isinstance(c.func, ast.Attribute) and c.func.attr in ("discard", "remove") and
-           text(c.args[0]) == rm.fi.params()[1] and
-           text(c.func.value) == "self.inverse_map[%s]" % rm.fi.params()[2]
-           for c in calls_in(rm.node)) and not any(isinstance(s, (ast.Try, ast.If))
-                                                   for s in ast.walk(rm.node))
+  mflow = Flow(rm)
+  mps = rm.fi.params()
+  ok = False
+  for (n, c, nm) in rm.calls():
+    if isinstance(c.func, ast.Attribute) and c.func.attr in ("discard", "remove") and \
+        nargs(c) == 1 and c.args:
+      ok = ok or (mflow.itext(c.args[0], n.id, stop=mps) == mps[1] and
+                  mflow.itext(c.func.value, n.id, stop=mps) == "self.inverse_map[%s]" % mps[2]
+                  and not mflow.required_facts(n.id))
+  ok = ok and not any(isinstance(s_, ast.Try) for s_ in ast.walk(rm.node))
   run.ob(R5, rm.qualname, "inverse_map[target].discard(referring)",
          "removal addresses the entry directly (a missing entry is a detected inconsistency, "
          "not silently ignored)", ok, fi=rm.fi)
@@ -415,43 +492,59 @@ def r6_lookup_index(run, w):
                   "_lookup_col._reset_sorted_versions")):
     fn = w.fn(q)
     cfg = fn.cfg
-    ups = [(n, n.stmt.targets[0].id) for n in cfg.nodes if n.kind == "stmt" and
-           isinstance(n.stmt, ast.Assign) and isinstance(n.stmt.value, ast.Call) and
-           endswith(fn.name(n.stmt.value), upd) and isinstance(n.stmt.targets[0], ast.Name)]
+    flow = Flow(fn)
+    ups = [n for (n, c, nm) in fn.calls() if endswith(nm, upd)]
     inv = [(n, c) for (n, c, nm) in fn.calls()
            if endswith(nm, "_relation_tracker.invalidate_affected_keys")]
-    ok = len(ups) == 1 and len(inv) == 1 and len(inv[0][1].args) == 1 and \
-        text(inv[0][1].args[0]) == ups[0][1] and cfg.dominated_by(inv[0][0].id, {ups[0][0].id}) \
-        and cfg.dominated_by(cfg.exit.id, {inv[0][0].id})
+    ok = len(ups) == 1 and len(inv) == 1 and nargs(inv[0][1]) == 1
+    if ok:
+      a0 = argn(w, fn, inv[0][1], 0)
+      ok = a0 is not None and \
+          flow.denotes(a0, inv[0][0].id, lambda x, k: isinstance(x, ast.Call) and
+                       endswith(fn.name(x), upd)) and \
+          cfg.dominated_by(inv[0][0].id, {ups[0].id}) and \
+          cfg.dominated_by(cfg.exit.id, {inv[0][0].id})
     run.ob(R6, q, "affected = %s(...); invalidate_affected_keys(affected)" % upd,
            "the keys whose row sets changed are exactly the ones whose lookups are invalidated",
            ok, fi=fn.fi)
   srt = w.fn("lookup.SortedLookupMapColumn._recalc_rec_method")
-  loops = [s for s in srt.node.body if isinstance(s, ast.For) and
-           text(s.iter) == "self._sort_col_ids"]
-  ok = len(loops) == 1 and any(dotted(c.func) == "getattr" and len(c.args) == 2 and
-                               text(c.args[0]) == srt.fi.params()[1] and
-                               text(c.args[1]) == text(loops[0].target)
-                               for c in calls_in(loops[0].body))
+  sflow = Flow(srt)
+  rec = srt.fi.params()[1]
+  ok = False
+  n_touch = 0
+  for (n, c, nm) in srt.calls():
+    if dotted(c.func) == "getattr" and len(c.args) == 2 and \
+        sflow.itext(c.args[0], n.id, stop=(rec,)) == rec:
+      n_touch += 1
+      src = sflow.loop_source(c.args[1], n.id)
+      ok = src is not None and sflow.itext(src[0], src[1]) == "self._sort_col_ids" and \
+          not sflow.required_facts(n.id) and \
+          srt.cfg.dominated_by(srt.cfg.exit.id, {src[1]})
   run.ob(R6, srt.qualname, "for col_id in self._sort_col_ids: getattr(rec, col_id)",
          "the sorted helper depends on every sort column (this is the dependency SortKey relies on)",
-         ok, fi=srt.fi)
+         ok and n_touch == 1, fi=srt.fi)
   rs = w.fn("lookup.LookupMapColumn._reset_sorted_versions")
-  ok = any(endswith(rs.name(c), "sorted_versions.pop") and text(c.args[0]) == rs.fi.params()[2]
-           for c in calls_in(rs.node))
+  rflow = Flow(rs)
+  ok = False
+  for (n, c, nm) in rs.calls():
+    if endswith(nm, "sorted_versions.pop") and c.args:
+      ok = ok or rflow.itext(c.args[0], n.id, stop=rs.fi.params()) == rs.fi.params()[2]
   run.ob(R6, rs.qualname, "row_ids.sorted_versions.pop(sort_spec, None)",
          "the cached order for this sort spec is dropped for every affected key", ok, fi=rs.fi)
   dl = w.fn("lookup.LookupMapColumn._do_lookup_with_sort")
+  dflow = Flow(dl)
   ps = dl.fi.params()
-  gets = [c for c in calls_in(dl.node) if endswith(dl.name(c), "sorted_versions.get")]
-  sets = [s for s in ast.walk(dl.node) if isinstance(s, ast.Assign) and
-          isinstance(s.targets[0], ast.Subscript) and
-          endswith(dl.aliases.dotted(s.targets[0].value) or "", "sorted_versions")]
-  ok = len(gets) == 1 and len(sets) == 1 and text(gets[0].args[0]) == ps[2] and \
-      text(sets[0].targets[0].slice) == ps[2]
-  srt_calls = [c for c in calls_in(dl.node) if dotted(c.func) == "sorted"]
-  ok = ok and len(srt_calls) == 1 and any(k.arg == "key" and text(k.value) == ps[3]
-                                          for k in srt_calls[0].keywords)
+  gets = [(n, c) for (n, c, nm) in dl.calls() if endswith(nm, "sorted_versions.get")]
+  sets = [n for n in dl.cfg.nodes if n.kind == "stmt" and isinstance(n.stmt, ast.Assign) and
+          isinstance(n.stmt.targets[0], ast.Subscript) and
+          endswith(dl.aliases.dotted(n.stmt.targets[0].value) or "", "sorted_versions")]
+  ok = len(gets) == 1 and len(sets) == 1 and bool(gets[0][1].args) and \
+      dflow.itext(gets[0][1].args[0], gets[0][0].id, stop=ps) == ps[2] and \
+      dflow.itext(sets[0].stmt.targets[0].slice, sets[0].id, stop=ps) == ps[2]
+  srt_calls = [(n, c) for (n, c, nm) in dl.calls() if dotted(c.func) == "sorted"]
+  ok = ok and len(srt_calls) == 1 and any(
+    k.arg == "key" and dflow.itext(k.value, srt_calls[0][0].id, stop=ps) == ps[3]
+    for k in srt_calls[0][1].keywords)
   run.ob(R6, dl.qualname, "cache read and write use the same sort_spec key; sorted(..., "
          "key=sort_key)", "a cached order is only ever returned for the sort spec that produced it",
          ok, fi=dl.fi)
@@ -491,26 +584,66 @@ def r7_column_lifecycle(run, w):
                 "recompute_map", floor=5)
   fn = w.fn("engine.Engine._update_table_model")
   cfg = fn.cfg
-  added = [n for n in cfg.nodes if n.kind == "stmt" and isinstance(n.stmt, ast.Assign) and
-           text(n.stmt.value).replace(" ", "") in ("new_columns.keys()-old_columns.keys()",)]
-  deleted = [n for n in cfg.nodes if n.kind == "stmt" and isinstance(n.stmt, ast.Assign) and
-             text(n.stmt.value).replace(" ", "") in ("old_columns.keys()-new_columns.keys()",)]
-  ok = len(added) == 1 and len(deleted) == 1
+  flow = Flow(fn)
+  rebuild = fn.nodes_calling(lambda c, nm, f: endswith(nm, "_rebuild_model"))
+  def is_old(x, k):
+    """snapshot of the table's columns taken before the model is rebuilt"""
+    return isinstance(x, ast.Call) and isinstance(x.func, ast.Attribute) and \
+        x.func.attr == "copy" and text(x.func.value).endswith(".all_columns") and \
+        not (cfg.reach_after(rebuild) & {k})
+  def is_new(x, k):
+    """the table's columns after the rebuild, or nothing when the table is going away"""
+    if isinstance(x, ast.Dict) and not x.keys:
+      return True
+    return isinstance(x, ast.Attribute) and x.attr == "all_columns" and \
+        bool(rebuild) and cfg.dominated_by(k, rebuild)
+  def keys_of(e, k, pred):
+    e = flow.resolve(e, k)[0]
+    if isinstance(e, ast.Call) and isinstance(e.func, ast.Attribute) and e.func.attr == "keys" \
+        and not e.args:
+      e = e.func.value
+    elif isinstance(e, ast.Call) and dotted(e.func) == "set" and len(e.args) == 1:
+      e = e.args[0]
+    else:
+      return False
+    ls = flow.leaves(e, k)
+    return bool(ls) and all(pred(l.expr, l.nid) for l in ls) and \
+        (pred is is_old or any(not isinstance(l.expr, ast.Dict) for l in ls))
+  def difference(x, k, first, second):
+    return isinstance(x, ast.BinOp) and isinstance(x.op, ast.Sub) and \
+        keys_of(x.left, k, first) and keys_of(x.right, k, second)
+  def is_added(x, k):
+    return difference(x, k, is_new, is_old)
+  def is_deleted(x, k):
+    return difference(x, k, is_old, is_new)
+  n_added = [n for n in cfg.nodes for e in n.exprs for x in walk_no_nested(e)
+             if is_added(x, n.id)]
+  n_deleted = [n for n in cfg.nodes for e in n.exprs for x in walk_no_nested(e)
+               if is_deleted(x, n.id)]
+  ok = bool(n_added) and bool(n_deleted)
   run.ob(R7, fn.qualname, "added = new - old; deleted = old - new",
          "added and deleted column sets are the two set differences", ok, fi=fn.fi)
   if ok:
-    av, dv = added[0].stmt.targets[0].id, deleted[0].stmt.targets[0].id
-    inv_added = any(nm == "self.invalidate_records" and
-                    any(k.arg == "col_ids" and text(k.value) == av for k in c.keywords)
-                    for (n, c, nm) in fn.calls())
+    inv_added = False
+    for (n, c, nm) in fn.calls():
+      if nm == "self.invalidate_records":
+        cols = arg(c, None, "col_ids") or argn(w, fn, c, 2)
+        if cols is not None and flow.denotes(cols, n.id, is_added):
+          # the only thing that may skip it is the set being empty
+          inv_added = all(pol is True and flow.denotes(t, i, is_added)
+                          for (t, pol, i) in flow.required_facts(n.id))
     run.ob(R7, fn.qualname, "invalidate_records(table_id, col_ids=added)",
            "new columns and their dependents are computed", inv_added, fi=fn.fi)
     def loop_calls(meth):
-      for s in ast.walk(fn.node):
-        if isinstance(s, ast.For) and text(s.iter) == dv:
-          for c in calls_in(s.body):
-            if fn.name(c) == "self." + meth and len(c.args) == 1 and \
-                text(c.args[0]) == "old_columns[%s]" % text(s.target):
+      for (n, c, nm) in fn.calls():
+        if nm == "self." + meth and nargs(c) == 1:
+          a0 = flow.resolve(argn(w, fn, c, 0), n.id)[0] if argn(w, fn, c, 0) is not None else None
+          if isinstance(a0, ast.Subscript) and \
+              keys_of(ast.Call(func=ast.Attribute(value=a0.value, attr="keys", ctx=ast.Load()),
+                               args=[], keywords=[]), n.id, is_old):
+            src = flow.loop_source(a0.slice, n.id)
+            if src is not None and flow.denotes(src[0], src[1], is_deleted) and \
+                not flow.required_facts(n.id):
               return True
       return False
     run.ob(R7, fn.qualname, "for c in deleted: invalidate_column(old_columns[c]); "
@@ -518,14 +651,15 @@ def r7_column_lifecycle(run, w):
            "scheduled for clean-up", loop_calls("invalidate_column") and loop_calls("delete_column"),
            fi=fn.fi)
   dc = w.fn("engine.Engine.delete_column")
-  p = dc.fi.params()[1]
-  names = [nm for (n, c, nm) in dc.calls()]
+  dcfg = dc.cfg
   want = ["self.invalidate_column", "self.dep_graph.clear_dependencies", "self.recompute_map.pop",
           "self._gone_columns.append"]
+  at = {x: {n.id for (n, c, nm) in dc.calls() if nm == x} for x in want}
+  ok = all(at[x] and dcfg.dominated_by(dcfg.exit.id, at[x]) for x in want) and \
+      all(dcfg.dominated_by(x, at[want[0]]) for x in at[want[1]])
   run.ob(R7, dc.qualname, " -> ".join(w_.split(".")[-1] for w_ in want),
          "deleting a column invalidates dependents, clears its edges, drops its dirty set and "
-         "queues it for destruction", all(x in names for x in want) and
-         [x for x in names if x in want] == want, fi=dc.fi)
+         "queues it for destruction", ok, fi=dc.fi)
   # created columns are invalidated
   cc = w.fn("table.Table._create_or_update_col")
   cfg = cc.cfg
